@@ -16,6 +16,13 @@ def runPool (lines : List String) : List String :=
       | ["lookup", w] => go p rest ((match p.names.lookup w with | some id => s!"id {id}" | none => "id -") :: acc)
       | ["solv", n, r] => let (a, id) := alloc p.solvables (nat! n, nat! r); go { p with solvables := a } rest (s!"id {id}" :: acc)
       | ["vs", n, v] => let (t, id) := p.versionSets.intern (nat! n, nat! v); go { p with versionSets := t } rest (s!"id {id}" :: acc)
+      -- the iterator of the outer union interns the inner one while it is consumed: the inner union is allocated first
+      | "unionnest" :: ids =>
+        let outer := ids.takeWhile (· != "/")
+        let inner := (ids.dropWhile (· != "/")).drop 1
+        let (a1, idI) := alloc p.unions (inner.map nat!)
+        let (a2, idO) := alloc a1 (outer.map nat!)
+        go { p with unions := a2 } rest (s!"id {idO} {idI}" :: acc)
       | "union" :: ids => let (a, id) := alloc p.unions (ids.map nat!); go { p with unions := a } rest (s!"id {id}" :: acc)
       | ["rstr", i] => go p rest ((match p.strings.resolve (nat! i) with | some v => s!"val {v}" | none => "panic") :: acc)
       | ["rname", i] => go p rest ((match p.names.resolve (nat! i) with | some v => s!"val {v}" | none => "panic") :: acc)
